@@ -283,6 +283,14 @@ impl Space {
     }
 }
 
+#[cfg(any(kani, meshless_voro_verif))]
+impl Space {
+    /// Verification hook: `(loc, width)` of every cell, in storage order.
+    pub fn verif_cells(&self) -> Vec<(DVec3, DVec3)> {
+        self.cells.iter().map(|c| (c.loc, c.width)).collect()
+    }
+}
+
 #[cfg(test)]
 mod tests {
     use super::*;
